@@ -13,4 +13,4 @@ pub mod node;
 
 #[cfg(kani)]
 #[path = "/verif/units/kani/leaf_mod.rs"]
-mod verif_kani;
+pub(crate) mod verif_kani;
